@@ -156,7 +156,7 @@ def cases(draw, tier):
     if any(p.startswith("l") for p in provs):
         spec["eq_listeners"] = draw(st.booleans())  # listeners that compare by value (think frozen dataclasses): a copy is equal to, but is not, its original
     n = len(spec["states"])
-    kind = draw(st.sampled_from(["ids", "ids", "int", "enum", "mixed", "tuple"]))
+    kind = draw(st.sampled_from(["ids", "ids", "int", "enum", "mixed", "tuple", "intenum-instance"]))
     vals = values_for(kind, n, draw)
     if vals is not None:
         for s, v in zip(spec["states"], vals):
